@@ -248,6 +248,7 @@ func (ex *Exec) call(fr *Frame, st *State, c *ssa.CallCommon, instr ssa.Instruct
 					}
 				}
 			}
+			ex.havocClosureArgs(fr, st, c)
 			ex.havocModSet(fr, st, ms, ex.vc.name("mfn"))
 			ex.vc.note("call through a function value with several possible targets in %s: effects havocked", funcKey(fr.fn))
 			return ex.havocResults(st, c.Signature().Results(), "mfn")
